@@ -30,7 +30,7 @@ func init() {
 	register(&PropSpec{
 		ID: "C06",
 		Explain: "Decides structural sufficient conditions for determinism and history-freedom of ParseStatic/ParseRealtime on every path: " +
-			"(G6/G16) no range over a Go map lets its randomised order reach a result: body effects are per-key, iteration-local or commutative, or the accumulated slice is sorted afterwards on every path by a comparator that is total on the map's key type; " +
+			"(G6/G16) no range over a Go map lets its randomised order reach a result: body effects are per-key (a slot selected by the key or value itself -- an entry reached through a second lookup, m2[m1[key]], is not: two keys can lead to it), iteration-local or commutative, or the accumulated slice is sorted afterwards on every path by a comparator that is total on the map's key type; " +
 			"(G7) no write site reachable from a parse writes memory that outlives the call (options value, extension object, package-level variables) or the input byte slice; " +
 			"(G8) no call path from a parse to clock, randomness or environment. " +
 			"G8 also covers reads of library variables that depend on the process environment (time.Local); the sort comparators must be total on the key (field coverage and stage qualifiers). Not decided: determinism of the standard library and protobuf runtime; time.LoadLocation depends on the host zone database.",
